@@ -125,6 +125,80 @@ func runC02(c *Ctx, r *Run) {
 				}
 			}
 		})
+		// the append spelling: a₀ appended to an empty slice, then one sampled coefficient appended per turn while
+		// len(coefficients) <= degree - degree+1 entries by construction
+		appendOne := func(v ssa.Value) (base, elem ssa.Value, ok bool) {
+			call, isC := v.(*ssa.Call)
+			if !isC || len(call.Call.Args) != 2 {
+				return nil, nil, false
+			}
+			if b, isB := call.Call.Value.(*ssa.Builtin); !isB || b.Name() != "append" {
+				return nil, nil, false
+			}
+			sl, isS := call.Call.Args[1].(*ssa.Slice)
+			if !isS {
+				return nil, nil, false
+			}
+			al, isA := sl.X.(*ssa.Alloc)
+			if !isA {
+				return nil, nil, false
+			}
+			if arr, isArr := al.Type().(*types.Pointer).Elem().Underlying().(*types.Array); !isArr || arr.Len() != 1 {
+				return nil, nil, false
+			}
+			for _, ref := range *al.Referrers() {
+				if ia, isIA := ref.(*ssa.IndexAddr); isIA {
+					for _, r2 := range *ia.Referrers() {
+						if st, isSt := r2.(*ssa.Store); isSt {
+							elem = st.Val
+						}
+					}
+				}
+			}
+			return call.Call.Args[0], elem, elem != nil
+		}
+		appendLoop, appendRand := false, false
+		for _, b := range newPoly.Blocks {
+			iff, ok := b.Instrs[len(b.Instrs)-1].(*ssa.If)
+			if !ok {
+				continue
+			}
+			bo, ok := iff.Cond.(*ssa.BinOp)
+			if !ok || bo.Op != token.LEQ || bo.Y != deg {
+				continue
+			}
+			lc, ok := bo.X.(*ssa.Call)
+			if !ok || len(lc.Call.Args) != 1 {
+				continue
+			}
+			if bi, isB := lc.Call.Value.(*ssa.Builtin); !isB || bi.Name() != "len" {
+				continue
+			}
+			ph, ok := lc.Call.Args[0].(*ssa.Phi)
+			if !ok || len(ph.Edges) != 2 {
+				continue
+			}
+			first, turn := false, false
+			for _, e := range ph.Edges {
+				base, elem, isApp := appendOne(e)
+				if !isApp {
+					continue
+				}
+				if ms, isMS := base.(*ssa.MakeSlice); isMS {
+					if k, isK := constInt(ms.Len); isK && k == 0 {
+						first = true
+					}
+				}
+				if base == ssa.Value(ph) {
+					turn = true
+					if in, isIn := e.(ssa.Instruction); isIn && newDep(newPoly, in).has(elem, "RANDOM") {
+						appendRand = true
+					}
+				}
+			}
+			appendLoop = first && turn
+		}
+		allocOK = allocOK || appendLoop
 		r.Check("DEG-1", name+"|degree+1 coefficients", c.Pos(newPoly.Pos()), allocOK, "a polynomial of degree t has t+1 coefficients", "the coefficient slice is not make(..., degree+1)")
 		// loop i from 1 while i <= degree, each coefficient sampled from crypto/rand
 		loopOK, randOK := false, false
@@ -154,6 +228,9 @@ func runC02(c *Ctx, r *Run) {
 				}
 			}
 		})
+		if appendLoop && appendRand {
+			loopOK, randOK = true, true
+		}
 		r.Check("DEG-1", name+"|all higher coefficients sampled", c.Pos(newPoly.Pos()), loopOK && randOK, "coefficients 1..degree are each drawn from crypto/rand", "the sampling loop does not run i = 1..degree with crypto/rand values: the top coefficient stays nil/zero (degree t-1) or the constant is overwritten")
 	}
 
